@@ -160,7 +160,7 @@ def run(ctx):
     # universe and every assignment of join algorithms, Exec(plan) = Eval(pattern); all-bind execution = the "sideways" reading;
     # negative control: every unstable pattern has a dataset on which the algorithms disagree (F-C02-bindjoin at design level)
     rc_, out_, _ = vlib._tlc(os.path.join(vlib.TLA, FAMILY), "MCPlan.tla", "MCPlan.cfg", 1, 900, env_extra={"JAVA_TOOL_OPTIONS": "-Xss512m"}, tag="c02-plan")
-    plan = {t[1]: t[2:] for tag_, t in [(x[0], x[1]) for x in vlib._printed_tuples_any(out_, "PLAN")] }
+    plan = {t[0]: t[1:] for _tag, t in vlib._printed_tuples_any(out_, "PLAN")}
     if plan.get("Theorem") != [True] or plan.get("Sideways") != [True] or plan.get("Control") != [True]:
         import sys as _sys
         _sys.stdout.write(out_[-3000:])
